@@ -2,7 +2,7 @@
    number, takes the operation list of a case (each operation a list of integers) and
    returns one integer list per operation, in the same canonical form the Go harness
    prints for the implementation. *)
-From Minter Require Import Base Consts Pool Float Orders Govern Persist PersistGen Rewards Ledger LedgerRun.
+From Minter Require Import Base Consts Pool Float Orders Govern Persist PersistGen Rewards Ledger LedgerRun RLP.
 Open Scope Z_scope.
 
 Definition enc1 (z : Z) : list Z := [z].
@@ -197,6 +197,29 @@ Definition run_rewards_op (op : list Z) : list Z :=
   | _ => [-1]
   end.
 
+(* model 10: RLP codec and signature values (C23) *)
+Definition run_rlp_op (op : list Z) : list Z :=
+  match op with
+  | 1 :: bytes =>      (* generic decode; accepted -> the re-encoded bytes *)
+    match decode bytes with Some i => 1 :: encode i | None => [0] end
+  | 2 :: bytes =>      (* rlp.DecodeBytes(b, &transaction.Transaction{}) *)
+    match dec_tx bytes with
+    | Some t => [1; t_nonce t; t_chain t; t_gasprice t; t_gascoin t; t_type t; t_sigtype t;
+                 len (t_data t); len (t_payload t); len (t_service t)]
+    | None => [0]
+    end
+  | [3; v; r; s] => [if validate_sig v r s then 1 else 0]
+  | 4 :: bytes =>      (* check.DecodeFromBytes *)
+    match dec_chk bytes with
+    | Some k => [1; len (k_nonce k); k_chain k; k_due k; k_coin k; k_value k; k_gascoin k;
+                 k_lock k; k_v k; k_r k; k_s k]
+    | None => [0]
+    end
+  | 5 :: bytes =>      (* rlp.DecodeBytes(b, &transaction.Signature{}) *)
+    match dec_sig bytes with Some g => [1; s_v g; s_r g; s_s g] | None => [0] end
+  | _ => [-1]
+  end.
+
 Definition dispatch (model : Z) (ops : list (list Z)) : list (list Z) :=
   match model with
   | 1 => map run_pool_op ops
@@ -206,6 +229,7 @@ Definition dispatch (model : Z) (ops : list (list Z)) : list (list Z) :=
   | 5 => run_states appdb_step (empty_disk, empty_mem) ops
   | 6 => map run_rewards_op ops
   | 7 => run_states ledger_step ledger_init ops
+  | 10 => map run_rlp_op ops
   | _ => map (fun _ => [-1]) ops
   end.
 
